@@ -219,6 +219,39 @@ func main() {
 		os.RemoveAll(gwdir)
 	}
 
+	// ---- blue/green as rendered by the real template (whole pipeline) ----
+	if o.Replay == "" {
+		nr := o.Count(60, 2000)
+		rdir := o.Out + "/bgr"
+		for i := 0; i < nr; i++ {
+			in := genBG(rng)
+			for j := range in.Endpoints {
+				in.Endpoints[j].NoPod = false // every endpoint has a pod here
+			}
+			selector := i%2 == 0
+			out, ok := runBGRendered(rdir, in, selector)
+			if !ok {
+				res.Count("bgr_skipped")
+				continue
+			}
+			res.Seen(fmt.Sprintf("bgr:%v:%v", in, selector), len(in.Endpoints) >= 2)
+			res.Count("bg_rendered")
+			if selector {
+				res.Count("bg_rendered_with_selector")
+			}
+			res.OracleChecks++
+			if k, what := oracleBG(in, out); k != "" {
+				res.Count("oracle_fail_rendered_" + k)
+				res.Fail(hx.Failure{Key: "C16/rendered-" + k, What: "weights in the written haproxy.cfg: " + what, Input: in, Observed: out})
+			}
+			if !o.Search {
+				in, out := in, out
+				cw.Add(func(id int) string { return coqBG(id, in, out) }, in)
+			}
+		}
+		os.RemoveAll(rdir)
+	}
+
 	// ---- blue/green through the real updater ----
 	var bgs []bgInput
 	if o.Replay == "" {
